@@ -13,7 +13,9 @@ CLAUSES = {
     "C10.fixed": 60000,      # all loci fixed (integer counts) => usl == lsl == common GEBV
     "C10.lost": 60000,       # integer count 0 stays 0; reported frequency exactly 0/1 stays exactly 0/1
 }
-HOOKS_REQUIRED = ["generations with an allele frequency within 1e-5 of 0 or 1 but not equal to it",
+HOOKS_REQUIRED = ["histories with model: plain additive model", "histories with model: additive model with u_misc",
+                  "histories with model: additive+dominance model", "histories with model: rrBLUPModel0 fit",
+                  "generations with an allele frequency within 1e-5 of 0 or 1 but not equal to it",
                   "breeding-value route: gebv_numpy", "breeding-value route: gegv_numpy", "breeding-value route: predict_numpy(X = 0)",
                   "breeding-value route: gebv(phased).unscale()", "breeding-value route: gebv(ndarray).unscale()",
                   "breeding-value route: predict(contrast, phased).unscale()",
@@ -35,7 +37,8 @@ RULE = ("seeded closed breeding histories driven through the real classes: found
         "sizes); plus selection-only chains on haploid/diploid/tetraploid phased matrices.  Every generation the limits are "
         "read through four inputs (phased matrix, unphased matrix from the real genotyping protocol, {0,1,2} ndarray, "
         "correctly rounded frequency vector) scaled and unscaled.  Non-trivial: at least one transition and one segregating "
-        "or non-zero-effect locus; half of the effect matrices get a joint architecture (sparse, single QTL, rows cancelling "
+        "or non-zero-effect locus; model class = plain additive 55 %, additive with u_misc 12 %, additive+dominance (u_d omitted "
+        "or non-zero, with/without u_misc) 23 %, rrBLUPModel0 fitted on the founders 10 %; half of the effect matrices get a joint architecture (sparse, single QTL, rows cancelling "
         "exactly across traits, pairs cancelling within a trait, trait-specific markers, zero in some traits only); breeding "
         "values are read through gebv_numpy / gegv_numpy / predict_numpy / gebv() / gegv() / predict() on phased and array "
         "inputs; 30 % of the founder matrices are never grouped along the variant axis and store their "
@@ -59,8 +62,9 @@ ASSUME = ["the genomic breeding value of an individual is intercept + sum_j geno
           "a step after which an allele with integer count 0 is present again is reported under C10.lost with the operation as "
           "site; the history relations (bracket w.r.t. ancestors, monotone) restart at that generation instead of reporting the "
           "same event again",
-          "unmodelled: DenseLinearGenomicModel (same limit code, abstract in this tree), DenseAdditiveDominanceLinearGenomicModel "
-          "(not additive), the library's selection protocols (selection is an index list chosen by the harness)"]
+          "for DenseAdditiveDominanceLinearGenomicModel the limits and the bracketed values are those of the genomic *breeding* "
+          "value gebv() (additive part); gegv*/predict* are used as routes only where they return that value",
+          "unmodelled: DenseLinearGenomicModel (same limit code, abstract in this tree), the library's selection protocols (selection is an index list chosen by the harness)"]
 TIMEOUT = {"quick": 900, "thorough": 3 * 3600}
 
 PROTOS = [("SelfCross", 1), ("TwoWayCross", 2), ("TwoWayDHCross", 2), ("ThreeWayCross", 3), ("ThreeWayDHCross", 3),
@@ -214,15 +218,44 @@ def make_pop(g, mat, nchr, ungrouped=False):
     return pg
 
 
-def make_model(g, u, ntrait):
+def make_model(g, u, ntrait, mat0):
+    """A model of one of the classes that inherit the limit code.  Returns (model, beta, has_unscale, effects u_a, kind).
+
+    kinds: plain additive | additive with u_misc | additive+dominance (u_d omitted / non-zero, with / without u_misc) |
+    rrBLUPModel0 fitted to phenotypes simulated on the founders (its estimated effects are then *the* effects)."""
     from pybrops.model.gmod.DenseAdditiveLinearGenomicModel import DenseAdditiveLinearGenomicModel
+    from pybrops.model.gmod.DenseAdditiveDominanceLinearGenomicModel import DenseAdditiveDominanceLinearGenomicModel
     q = int(g.choice([1, 1, 2, 3]))
     beta = g.normal(size=(q, ntrait)) * float(g.choice([0.0, 1.0, 10.0, 100.0]))
     if g.random() < 0.3:
         beta = numpy.round(beta)
     trait = numpy.array(["T%d" % k for k in range(ntrait)], dtype=object)
+    m = u.shape[0]
+    r = g.random()
+    misc = (lambda: g.normal(size=(int(g.integers(1, 5)), ntrait)) * float(g.choice([1.0, 10.0])))
     # (DenseLinearGenomicModel has the same limit code but is abstract in this tree: not drivable)
-    return DenseAdditiveLinearGenomicModel(beta=beta, u_misc=None, u_a=u.copy(), trait=trait), beta, True
+    if r < 0.55 or mat0.shape[1] > 5000:
+        return DenseAdditiveLinearGenomicModel(beta=beta, u_misc=None, u_a=u.copy(), trait=trait), beta, True, u, "plain additive model"
+    if r < 0.67:
+        return (DenseAdditiveLinearGenomicModel(beta=beta, u_misc=misc(), u_a=u.copy(), trait=trait), beta, True, u,
+                "additive model with u_misc")
+    if r < 0.90:
+        sub = int(g.integers(4))
+        u_d = None if sub < 2 else g.normal(size=(m, ntrait)) * float(g.choice([0.5, 1.0, 5.0]))
+        u_m = None if sub % 2 == 0 else misc()
+        return (DenseAdditiveDominanceLinearGenomicModel(beta=beta, u_misc=u_m, u_a=u.copy(), u_d=u_d, trait=trait), beta, True, u,
+                "additive+dominance model" + (", u_d omitted" if u_d is None else "") + (", u_misc present" if u_m is not None else ""))
+    try:
+        from pybrops.model.gmod.rrBLUPModel0 import rrBLUPModel0
+        Z = mat0.astype("int64").sum(0)
+        Y = Z @ u + g.normal(size=(Z.shape[0], ntrait)) * (0.5 + numpy.abs(Z @ u).std(0)) + g.normal(size=ntrait) * 10.0
+        fit = rrBLUPModel0.fit_numpy(Y, numpy.ones((Z.shape[0], 1)), Z.astype("int8") if g.random() < 0.5 else Z.astype(float), trait=trait)
+        ua = numpy.asarray(fit.u_a, dtype=float)
+        if ua.shape == u.shape and numpy.all(numpy.isfinite(ua)) and numpy.all(numpy.isfinite(fit.beta)):
+            return fit, numpy.asarray(fit.beta, dtype=float), True, ua.copy(), "rrBLUPModel0 fit"
+    except Exception:
+        pass
+    return DenseAdditiveLinearGenomicModel(beta=beta, u_misc=None, u_a=u.copy(), trait=trait), beta, True, u, "plain additive model"
 
 
 # ---------------------------------------------------------------- observation of one generation
@@ -245,9 +278,17 @@ def read_generation(ctx, mon, model, has_unscale, genotyper, pg, t, op, opsite, 
         ctx.raised("mat_asformat", e); Z = Zi.astype("int8")
     nq = int(numpy.asarray(model.beta).shape[0])
     sc_routes = [("gebv_numpy", "gebv_numpy", lambda: model.gebv_numpy(Z))]
-    sc_routes.append([("gegv_numpy", "gegv_numpy", lambda: model.gegv_numpy(Z)),
-                      ("predict_numpy", "predict_numpy(X = 0)", lambda: model.predict_numpy(numpy.zeros((n, nq)), Z)),
-                      ("gebv_numpy", "gebv_numpy(float64 genotypes)", lambda: model.gebv_numpy(Z.astype("float64")))][int(g.integers(3))])
+    # gegv* are breeding-value routes only where they are not overridden with a genotypic value (dominance model);
+    # predict* only where the random-effect design matrix is the marker matrix (no u_misc, no dominance columns)
+    isbv = type(model).gegv_numpy is getattr(__import__("pybrops.model.gmod.DenseAdditiveLinearGenomicModel", fromlist=["x"]),
+                                             "DenseAdditiveLinearGenomicModel").gegv_numpy
+    onlymarkers = int(model.nexplan_u) == int(Z.shape[1])
+    extra = [("gebv_numpy", "gebv_numpy(float64 genotypes)", lambda: model.gebv_numpy(Z.astype("float64")))]
+    if isbv:
+        extra.append(("gegv_numpy", "gegv_numpy", lambda: model.gegv_numpy(Z)))
+    if onlymarkers:
+        extra.append(("predict_numpy", "predict_numpy(X = 0)", lambda: model.predict_numpy(numpy.zeros((n, nq)), Z)))
+    sc_routes.append(extra[int(g.integers(len(extra)))])
     got = []
     for meth, label, fn in sc_routes:
         try:
@@ -265,10 +306,13 @@ def read_generation(ctx, mon, model, has_unscale, genotyper, pg, t, op, opsite, 
     xstar = numpy.full((n, nq), 1.0 / nq); xstar[:, 0] = 1.0      # the covariate contrast gebv() documents for its location
     offset = xstar[0] @ numpy.asarray(model.beta, dtype=float)   # intercept by the documented contrast (see ASSUME)
     un_routes = [("gebv", "gebv(phased).unscale()", lambda: model.gebv(pg).unscale())]
-    un_routes.append([("gebv", "gebv(ndarray).unscale()", lambda: model.gebv(Z).unscale()),
-                      ("gegv", "gegv(phased).unscale()", lambda: model.gegv(pg).unscale()),
-                      ("predict", "predict(contrast, phased).unscale()", lambda: model.predict(xstar, pg).unscale()),
-                      ("predict_numpy", "predict_numpy(contrast)", lambda: model.predict_numpy(xstar, Z))][int(g.integers(4))])
+    extra = [("gebv", "gebv(ndarray).unscale()", lambda: model.gebv(Z).unscale())]
+    if isbv:
+        extra.append(("gegv", "gegv(phased).unscale()", lambda: model.gegv(pg).unscale()))
+    if onlymarkers:
+        extra += [("predict", "predict(contrast, phased).unscale()", lambda: model.predict(xstar, pg).unscale()),
+                  ("predict_numpy", "predict_numpy(contrast)", lambda: model.predict_numpy(xstar, Z))]
+    un_routes.append(extra[int(g.integers(len(extra)))])
     got = []
     for meth, label, fn in un_routes:
         try:
@@ -494,13 +538,14 @@ def case_history(ctx, c, family="hist"):
     pg = make_pop(g, mat0, int(g.integers(2, 5)) if ungrouped else int(g.integers(1, 4)), ungrouped=ungrouped)
     if ungrouped:
         ctx.hook("histories on founders never grouped along the variant axis (interleaved chromosomes)")
-    model, beta, has_unscale = make_model(g, u, ntrait)
+    model, beta, has_unscale, u, mkind = make_model(g, u, ntrait, mat0)
+    ctx.hook("histories with model: " + mkind.split(",")[0])
     genotyper = DenseUnphasedGenotyping()
     ngen = int(g.integers(3, 26)) if g.random() < 0.3 else int(g.integers(3, 11))
     tail = (not chain) and g.random() < 0.35
     history = [{"op": "founders", "class": fcls, "ntaxa": n0, "nvrnt": m, "ploidy": ploidy, "variant_axis": "ungrouped, interleaved" if ungrouped else "grouped"}]
     icls = ("selection-only chain, ploidy %d" % ploidy) if chain else ("very large founder population" if huge else "mating history")
-    mon = O.HistoryMonitor(ctx, u, icls, coords, history, model)
+    mon = O.HistoryMonitor(ctx, u, icls, coords, history, model, mkind=mkind)
     protos = {}
     G, gref = read_generation(ctx, mon, model, has_unscale, genotyper, pg, 0, history[0], "founders", g)
     t = 0
@@ -589,7 +634,7 @@ def case_history(ctx, c, family="hist"):
     if mon.gens[-1].allfixed:
         ctx.sumnote("histories ending fixed at all loci")
     if c % 101 == 0:
-        ctx.sample({"family": family, "model": type(model).__name__, "founders": history[0], "effects": ucls, "u_a": u.tolist(), "beta": beta.tolist(),
+        ctx.sample({"family": family, "model": mkind, "founders": history[0], "effects": ucls, "u_a": u.tolist(), "beta": beta.tolist(),
                     "history": [{k: v for k, v in h.items() if k not in ("indices", "survivors")} for h in history[1:8]],
                     "sizes": [x.n for x in mon.gens]})
 
